@@ -133,10 +133,12 @@ neighbor 127.0.0.2 {
   local-address 127.0.0.1;
   local-as 65001;
   peer-as 65001;
-  capability { asn4 %(asn4)s; add-path %(addpath)s; aigp enable; }
+  capability { asn4 %(asn4)s; add-path %(addpath)s; aigp enable; nexthop enable; }
   family { all; }
+  nexthop { ipv4 unicast ipv6; ipv4 multicast ipv6; ipv4 nlri-mpls ipv6; ipv4 mpls-vpn ipv6; ipv6 unicast ipv4; }
 }
 """
+C15_EXT_NH = [(1, 1, 2), (1, 2, 2), (1, 4, 2), (1, 128, 2), (2, 1, 1)]
 
 
 def negotiated_all_families(families, asn4: bool = True, addpath: bool = False, direction_out: bool = True):
@@ -158,6 +160,7 @@ def negotiated_all_families(families, asn4: bool = True, addpath: bool = False, 
         caps.append(wire.cap_asn4(65001))
     if addpath:
         caps.append(wire.cap_addpath([(a, s, 3) for a, s in families]))
+    caps.append(wire.cap_ext_nh(C15_EXT_NH))
     body = wire.encode_open(65001, 180, '9.9.9.9', caps, style='all-in-one')
     from exabgp.bgp.message.direction import Direction
     from exabgp.bgp.message.open.capability.negotiated import Negotiated
